@@ -49,7 +49,8 @@ def render_atomistic(rng):
         g.nodes[n]['force_bracket'] = True
     r = M.render_fragment(rng, g, list(g.nodes), desc,
                           opts={'bracket_p': rng.choice([0.0, 0.3]), 'explicit_single': rng.choice([0.0, 0.15]),
-                                'leading': rng.choice([None, True, False]), 'desc_pos': rng.choice([None, 'before', 'after', 'mixed'])})
+                                'leading': rng.choice([None, True, False]), 'desc_pos': rng.choice([None, 'before', 'after', 'mixed']),
+                                'desc_after_branch': rng.choice([0.0, 0.5])})
     tokens = []
     for t in r['tokens']:
         if t[0] == 'atom' and t[2] in annots:
